@@ -75,6 +75,11 @@ func (a *alist) slice() []Term {
 type Snapshot struct {
 	heap   map[string]Term
 	params map[string]Value
+	// lazily materialized havocs at the time of the snapshot (see State.pending)
+	pending   map[string]int
+	allSeq    int
+	allPrev   int
+	allExcept map[string]bool
 }
 
 type loopCtx struct {
@@ -124,6 +129,51 @@ type State struct {
 	dead    bool
 	locks   map[string]bool
 	quant   int // >0 while evaluating under a quantifier: no side assumptions may mention bound variables
+	// Havoc of heap arrays that this path has not touched yet. A heap array is materialized (gets an SMT symbol)
+	// the first time a path reads or writes it; before that its value is the initial heap H0.<key>. A havoc of a
+	// not-yet-materialized array (modular call, loop cut, lock acquisition) must not be lost: it is recorded here
+	// (pending: per key, allSeq: whole-heap havoc) as the sequence number of the havoc event on this path, and the
+	// first later access materializes the array as a fresh symbol H~<seq>.<key> instead of H0.<key>.
+	pending  map[string]int
+	allSeq   int
+	havocSeq int
+	// a whole-heap havoc with a `preserves` exception: the excepted arrays keep the value they had before it
+	// (allPrev: the whole-heap havoc in force before that one)
+	allPrev   int
+	allExcept map[string]bool
+}
+
+// lazySeq: the havoc event that determines the value of a not-yet-materialized heap array (0: the initial heap).
+func lazySeq(key string, pending map[string]int, allSeq, allPrev int, allExcept map[string]bool) int {
+	all := allSeq
+	if allExcept != nil && allExcept[key] {
+		all = allPrev
+	}
+	if p := pending[key]; p > all {
+		return p
+	}
+	return all
+}
+
+// noteHavocAll records a whole-heap havoc for the arrays that are not materialized yet.
+func (s *State) noteHavocAll(except map[string]bool) {
+	s.havocSeq++
+	if except == nil {
+		s.allSeq, s.allPrev, s.allExcept = s.havocSeq, 0, nil
+		return
+	}
+	if s.allExcept != nil {
+		// two excepted havocs in a row: preserved across both only what both preserve
+		both := map[string]bool{}
+		for k := range except {
+			if s.allExcept[k] {
+				both[k] = true
+			}
+		}
+		s.allSeq, s.allExcept = s.havocSeq, both
+		return
+	}
+	s.allPrev, s.allSeq, s.allExcept = s.allSeq, s.havocSeq, except
 }
 
 func (s *State) top() *Frame { return s.frames[len(s.frames)-1] }
@@ -146,6 +196,13 @@ func (s *State) fork() *State {
 	n.locks = map[string]bool{}
 	for k, v := range s.locks {
 		n.locks[k] = v
+	}
+	n.allSeq, n.havocSeq, n.allPrev, n.allExcept = s.allSeq, s.havocSeq, s.allPrev, s.allExcept
+	if len(s.pending) > 0 {
+		n.pending = make(map[string]int, len(s.pending))
+		for k, v := range s.pending {
+			n.pending[k] = v
+		}
 	}
 	for _, f := range s.frames {
 		nf := *f
@@ -175,10 +232,35 @@ func (s *State) fork() *State {
 	return n
 }
 
+// enterOld makes the state read the heap of a snapshot (old() evaluation), including the snapshot's record of
+// havocs on arrays that were not materialized then; the returned function switches back. Arrays materialized
+// while reading the old heap are not carried into the current state.
+func (s *State) enterOld(old *Snapshot) func() {
+	sh, sp, sa, spv, se := s.heap, s.pending, s.allSeq, s.allPrev, s.allExcept
+	s.heap = make(map[string]Term, len(old.heap))
+	for k, v := range old.heap {
+		s.heap[k] = v
+	}
+	s.pending = make(map[string]int, len(old.pending))
+	for k, v := range old.pending {
+		s.pending[k] = v
+	}
+	s.allSeq, s.allPrev, s.allExcept = old.allSeq, old.allPrev, old.allExcept
+	return func() {
+		s.heap, s.pending, s.allSeq, s.allPrev, s.allExcept = sh, sp, sa, spv, se
+	}
+}
+
 func (s *State) snapshot() *Snapshot {
-	sn := &Snapshot{heap: make(map[string]Term, len(s.heap))}
+	sn := &Snapshot{heap: make(map[string]Term, len(s.heap)), allSeq: s.allSeq, allPrev: s.allPrev, allExcept: s.allExcept}
 	for k, v := range s.heap {
 		sn.heap[k] = v
+	}
+	if len(s.pending) > 0 {
+		sn.pending = make(map[string]int, len(s.pending))
+		for k, v := range s.pending {
+			sn.pending[k] = v
+		}
 	}
 	s.eng.coordSnapshot(sn) // models_coord.go: allocation counter, for fresh()/keeps*() clauses
 	return sn
@@ -314,8 +396,35 @@ func (s *State) heapGet(key, sort string) Term {
 	if t, ok := s.heap[key]; ok {
 		return t
 	}
-	t := s.eng.heapInit(key, sort, false)
+	t := s.eng.heapLazy(s, key, sort, lazySeq(key, s.pending, s.allSeq, s.allPrev, s.allExcept))
 	s.heap[key] = t
+	delete(s.pending, key)
+	return t
+}
+
+// heapLazy: the value of a heap array on first access: the initial heap, or - when a havoc event hit the array
+// before it was materialized - a symbol named after that event. The same (event, key) gives the same symbol, so
+// a snapshot taken after the havoc and the state itself agree as long as nothing else happens to the array.
+func (e *Engine) heapLazy(s *State, key, sort string, seq int) Term {
+	if seq == 0 {
+		return e.heapInit(key, sort, false)
+	}
+	name := fmt.Sprintf("H~%d.%s", seq, sanitize(key))
+	t := Term{name, sort}
+	if !e.u.Has(name) {
+		e.u.DeclareFun(name, nil, sort)
+		if _, ok := e.heapSorts[key]; !ok {
+			e.heapSorts[key] = sort
+		}
+	}
+	if s != nil {
+		if ax, ok := e.closednessAxiom(t, key, IntLit(int64(e.refCounter))); ok {
+			s.assume(ax)
+		}
+		if ax, ok := e.typedAxiom(t, key); ok {
+			s.assume(ax)
+		}
+	}
 	return t
 }
 
